@@ -11,15 +11,45 @@ import ast
 from fractions import Fraction
 from ..model import fqual
 from ..symx import Expander
-from ..anf import R
+from ..anf import R, Unsupported
 from .. import anf
 from .common import struct_ob, formula_ob, guard, last_return, U
 from ..report import AnalysisError
+from ..term import Resolver, pmatch, find_all, abstract, anf_of
 
 REL = "inference/approx/conditional.py"
-FLOORS = {"inverse-cdf": 1, "taylor-branch": 2, "branch-dispatch": 1, "delta-form": 2, "cell-weight": 1,
+FLOORS = {"edge-search": 1, "inverse-cdf": 1, "taylor-branch": 2, "branch-dispatch": 1, "delta-form": 2, "cell-weight": 1,
           "sample-form": 2, "normalised": 1, "grid-in-bounds": 1,
           "conditioning-point": 2}
+
+
+def _bracketing(fn):
+    """'' if fn is a bisection (trial point = mid-point of the bracket taken from its array argument, inside a bounded loop with at
+    least 15 iterations by default); otherwise the reason."""
+    rz = Resolver(fn)
+    loops = [l for l in fn.body if isinstance(l, ast.For)]
+    if len(loops) != 1 or pmatch(loops[0].iter, "range(_n)") is None:
+        return "has no single bounded iteration loop"
+    nparam = U(loops[0].iter.args[0])
+    defaults = dict(zip([a.arg for a in fn.args.args][-len(fn.args.defaults):], fn.args.defaults)) if fn.args.defaults else {}
+    d = defaults.get(nparam)
+    if not (isinstance(d, ast.Constant) and isinstance(d.value, int) and d.value >= 15):
+        return f"iterates `{nparam}` = {U(d) if d is not None else '?'} times by default (fewer than 15 halvings)"
+    # the value handed to the objective inside the loop
+    trial = None
+    for n in ast.walk(loops[0]):
+        if isinstance(n, ast.Call) and isinstance(n.func, ast.Name) and n.func.id == fn.args.args[0].arg and n.args:
+            trial = rz.term(n.args[0], rz.stmt_of(n))
+    if trial is None:
+        return "never evaluates its objective in the loop"
+    names = sorted({x.id for x in ast.walk(trial) if isinstance(x, ast.Name)})
+    try:
+        v = anf_of(trial)
+    except Unsupported:
+        return f"trial point `{U(trial)}` is outside the algebra"
+    if len(names) != 2 or not v.eq((R.sym(names[0]) + R.sym(names[1])) / 2):
+        return f"takes `{U(trial)}` as its trial point, not the mid-point of the bracket: no guaranteed shrink per iteration"
+    return ""
 
 
 def run(prog, tier):
@@ -116,25 +146,89 @@ def run(prog, tier):
 
     # ---------------------------------------------------------------- evaluate_conditional: normalised on the returned grid
     ec = prog.function(REL, "evaluate_conditional")
-    ret = last_return(ec)
-    body = [U(s) for s in ec.body]
-    ok = (U(ret.value) == "(x_cond, p_cond)" and "p_cond /= simpson(p_cond, x=x_cond)" in body
-          and body.index("p_cond /= simpson(p_cond, x=x_cond)") == len(body) - 2
-          and "p_cond = exp(p_cond - p_mode)" in body
-          and any(b.startswith("p_cond = array([func(x) for x in x_cond])") for b in body))
+    rz = Resolver(ec, prog, mi, None)
+    fpar = ec.args.args[0].arg
+    rets = rz.returns()
+    ok, why = False, ""
+    G = None
+    if len(rets) == 1 and isinstance(rets[0].value, ast.Tuple) and len(rets[0].value.elts) == 2 and isinstance(rets[0].value.elts[0], ast.Name):
+        G = rets[0].value.elts[0].id
+        dens = rz.term(rets[0].value.elts[1], rets[0], keep=(G,))
+        pats = [f"exp(array([{fpar}(_x) for _x in {G}]) - _m) / simpson(exp(array([{fpar}(_x) for _x in {G}]) - _m), x={G})",
+                f"exp(array([{fpar}(_x) for _x in {G}]) - _m) / simpson(exp(array([{fpar}(_x) for _x in {G}]) - _m), {G})"]
+        ok = any(pmatch(dens, pt) is not None for pt in pats)
+        why = f"returned density term `{U(dens)[:260]}`"
+    else:
+        why = "return is not (grid, density)"
     obs.append(struct_ob("normalised", fqual(mi, ec), ok,
-                         "the returned density must be exp(log-density) on the returned grid divided by its own Simpson "
-                         "integral over that grid, as the last step before returning", REL, ec.lineno))
+                         "the returned density must be exp(log-density - const) on the returned grid divided by its own Simpson "
+                         "integral over that grid: " + why, REL, ec.lineno))
+    # ---------------------------------------------------------------- grid edges: a bracketing search with guaranteed shrink
+    edge_why = []
+    n_search = 0
+    if G is not None:
+        gt = rz.value_of(G, rets[0])
+        bg = pmatch(gt, "linspace(_lo, _hi, _n)")
+        if bg is None:
+            edge_why.append(f"the evaluation grid `{U(gt)[:160]}` is not linspace(lower edge, upper edge, grid_size)")
+        else:
+            for end_ in ("_lo", "_hi"):
+                et = ast.parse(bg[end_], mode="eval").body
+                for n in ast.walk(et):
+                    if isinstance(n, ast.Call) and isinstance(n.func, ast.Name) and n.func.id in mi.functions:
+                        n_search += 1
+                        callee = mi.functions[n.func.id]
+                        g_ = _bracketing(callee)
+                        if g_:
+                            edge_why.append(f"edge search `{n.func.id}` {g_}")
+    obs.append(struct_ob("edge-search", fqual(mi, ec), not edge_why and n_search >= 2,
+                         "each grid edge must come from a threshold-crossing search that halves its bracket every iteration (so that a fixed "
+                         "number of iterations locates the crossing for any bounds): " + "; ".join(edge_why) + f" [{n_search} searches found]",
+                         REL, ec.lineno))
     # ---------------------------------------------------------------- grid spans the bounds
     gc = prog.function(REL, "get_conditionals")
-    txt = U(gc)
-    ok = ("search_points = linspace(*bounds[i], n_search_points)" in txt
-          and "search_points = insert(search_points, index, conditioning_point[i])" in txt
-          and "index = searchsorted(search_points, conditioning_point[i])" in txt
-          and "conditional.variable_index = i" in txt)
-    obs.append(struct_ob("grid-in-bounds", fqual(mi, gc), ok,
+    rg = Resolver(gc, prog, mi, None)
+    bpar, cpar = gc.args.args[1].arg, gc.args.args[2].arg
+    why = []
+    calls = rg.calls(lambda f: f == "evaluate_conditional")
+    if len(calls) != 1:
+        why.append(f"{len(calls)} calls of evaluate_conditional")
+    else:
+        call, st_ = calls[0]
+        loop = rg.parent.get(id(st_), (None, None, None))[1]
+        if not (isinstance(loop, ast.For) and isinstance(loop.target, ast.Name)):
+            why.append("evaluate_conditional is not called in a loop over the variables")
+        else:
+            i = loop.target.id
+            ncall = rg.norm_call(call)
+            pts = ncall.args[1] if len(ncall.args) > 1 else None
+            fobj = ncall.args[0] if ncall.args else None
+            if isinstance(pts, ast.Name) and pts.id in rg.binds:
+                for kind, bst, val, k in rg.binds[pts.id]:
+                    vt = rg.term(val, bst, keep=(pts.id,)) if val is not None else None
+                    okb = vt is not None and (pmatch(vt, f"linspace(*{bpar}[{i}], _n)") is not None
+                                              or pmatch(vt, f"linspace({bpar}[{i}][0], {bpar}[{i}][1], _n)") is not None
+                                              or pmatch(vt, f"insert({pts.id}, searchsorted({pts.id}, {cpar}[{i}]), {cpar}[{i}])") is not None)
+                    if not okb:
+                        why.append(f"search points `{U(vt)[:160] if vt is not None else None}` are not linspace over bounds[{i}] (plus the "
+                                   f"conditioning coordinate {cpar}[{i}] inserted in order)")
+            else:
+                vt = rg.term(pts, st_) if pts is not None else None
+                if vt is None or pmatch(vt, f"linspace(*{bpar}[{i}], _n)") is None:
+                    why.append(f"search points `{U(vt)[:160] if vt is not None else None}`")
+            # the conditional object is switched to variable i before it is evaluated
+            fname = U(fobj) if fobj is not None else "?"
+            sw = [s_ for s_ in loop.body if isinstance(s_, ast.Assign) and U(s_.targets[0]) == f"{fname}.variable_index"]
+            if not (len(sw) == 1 and U(sw[0].value) == i and sw[0].lineno < st_.lineno):
+                why.append(f"`{fname}.variable_index = {i}` does not precede the evaluation")
+            # results stored in column i
+            outs = [s_ for s_ in loop.body if isinstance(s_, ast.Assign) and isinstance(s_.targets[0], ast.Subscript)]
+            for s_ in outs:
+                if pmatch(s_.targets[0], f"_a[:, {i}]") is None:
+                    why.append(f"`{U(s_)}` does not store into column {i}")
+    obs.append(struct_ob("grid-in-bounds", fqual(mi, gc), not why,
                          "the search grid of variable i must be linspace over bounds[i] plus the conditioning coordinate, "
-                         "inserted in order, for the conditional of that same variable", REL, gc.lineno))
+                         "inserted in order, for the conditional of that same variable: " + "; ".join(why), REL, gc.lineno))
 
     # ---------------------------------------------------------------- the conditioning point is never disturbed
     from ..own import Ownership, class_mutation_sinks
